@@ -36,6 +36,7 @@ import (
 	"github.com/gethiox/HIDI/internal/pkg/logger"
 	"github.com/gethiox/HIDI/internal/pkg/midi"
 	"github.com/gethiox/HIDI/internal/pkg/midi/device"
+	"github.com/gethiox/HIDI/internal/pkg/midi/driver"
 	"github.com/gethiox/HIDI/verifsim/model"
 	"github.com/gethiox/HIDI/verifsim/simfs"
 	"github.com/gethiox/HIDI/verifsim/simrt"
@@ -68,6 +69,9 @@ type w7Ops struct {
 	SlowOutUs  int      `json:"slow_out_us"` // the MIDI consumer takes this long per message
 	DiskUs     int      `json:"disk_us,omitempty"`  // every open / read of the program takes this long (slow storage)
 	FloodUs    int      `json:"flood_us,omitempty"` // MIDI input arrives all the time, one message per period
+	// ShutdownHeld: the application is shut down (context cancelled, as the exit sequence or SIGTERM do) while a key
+	// is held, instead of after everything was unplugged
+	ShutdownHeld bool `json:"shutdown_held,omitempty"`
 }
 
 const keyA = 30 // KEY_A
@@ -104,6 +108,7 @@ func genW7(r *simrt.Rng) *w7Ops {
 	if r.Chance(0.3) {
 		o.FloodUs = []int{300, 2000, 10000}[r.Intn(3)]
 	}
+	o.ShutdownHeld = r.Chance(0.3)
 	// the factory default of every class in use always exists at the start; the other three ranks per device at random
 	for _, gp := range []bool{false, true} {
 		used := false
@@ -211,6 +216,11 @@ func shrinkW7(raw json.RawMessage) []json.RawMessage {
 	if o.FloodUs > 0 {
 		c := o
 		c.FloodUs = 0
+		emit(c)
+	}
+	if o.ShutdownHeld {
+		c := o
+		c.ShutdownHeld = false
 		emit(c)
 	}
 	return out
@@ -440,14 +450,19 @@ func runW7(t *testing.T, job *worlds.Job, seed uint64, rp *worlds.Replay) worlds
 		}
 		defer func() { input.SimMonitorNewDevices, input.SimOpenDevice = nil, nil }()
 
+		// wired as in main(): one context for the relay between the channels and the MIDI port and for the manager
 		midiOut := make(chan midi.Event, 8)
 		midiIn := make(chan midi.Event, 8)
+		ctx, cancel := context.WithCancel(context.Background())
+		po := &w7Out{c: make(chan []byte, 16)}
+		pi := &w7In{c: make(chan []byte, 16)}
+		var score midi.Score
+		midi.ProcessMidiEvents(ctx, driver.Port{Input: pi, Output: po}, midiOut, midiIn, &score)
 		sigs := make(chan os.Signal, 1)
 		var dm simrt.Mutex
 		table := map[*device.Device]*device.Device{}
 		mgr := NewManager(ManagerConfig{HIDI: HIDIConfig{HIDI: HIDI{EVThrottling: 5 * time.Millisecond, DiscoveryRate: time.Second, StabilizationPeriod: time.Second}}, NoLogs: true, OpenRGBPort: 6742},
 			midiOut, midiIn, &dm, table, sigs)
-		ctx, cancel := context.WithCancel(context.Background())
 		runDone, mgrTask := false, ""
 		simrt.Go("manager", func() {
 			mu.Lock()
@@ -460,7 +475,7 @@ func runW7(t *testing.T, job *worlds.Job, seed uint64, rp *worlds.Replay) worlds
 		})
 		simrt.Go("midi-consumer", func() {
 			for {
-				ev, ok := simrt.Recv(midiOut)
+				ev, ok := simrt.Recv(po.c)
 				if !ok {
 					return
 				}
@@ -482,7 +497,7 @@ func runW7(t *testing.T, job *worlds.Job, seed uint64, rp *worlds.Replay) worlds
 					if st {
 						break
 					}
-					simrt.Send(midiIn, midi.Event{0x90 | byte(n%16), byte(n % 128), 64})
+					simrt.Send(pi.c, []byte{0x90 | byte(n%16), byte(n % 128), 64})
 					simrt.Sleep(time.Duration(ops.FloodUs) * time.Microsecond)
 				}
 				mu.Lock()
@@ -604,7 +619,7 @@ func runW7(t *testing.T, job *worlds.Job, seed uint64, rp *worlds.Replay) worlds
 			mu.Unlock()
 			sort.Strings(on)
 			if len(on) > 0 {
-				mk([]string{"C01", "C16"}, "note_left_sounding", fmt.Sprintf("after %s (the stream of the device that held the key has ended) these notes are still sounding at the receiver: %v", what, on))
+				mk([]string{"C01", "C16", "C15"}, "note_left_sounding", fmt.Sprintf("after %s (the stream of the device that held the key has ended) these notes are still sounding at the receiver: %v", what, on))
 			}
 		}
 		writeFile := func(p string, data []byte, chunks int, create bool) [2]int64 {
@@ -772,15 +787,26 @@ func runW7(t *testing.T, job *worlds.Job, seed uint64, rp *worlds.Replay) worlds
 				}
 			case "midiin":
 				for j := 0; j < 3; j++ {
-					simrt.Send(midiIn, midi.Event{0x90, byte(60 + j), 100})
+					simrt.Send(pi.c, []byte{0x90, byte(60 + j), 100})
 				}
 				ro.Faults["midi_input_burst"]++
 			case "wait":
 				simrt.Sleep(time.Duration(op.Ms) * time.Millisecond)
 			}
 		}
-		// the end: everything is unplugged, then the application shuts down
-		if !failed() {
+		// the end: everything is unplugged, then the application shuts down - or it is shut down with a key held
+		shutdownHeld := false
+		if ops.ShutdownHeld && !failed() && held < 0 {
+			for i := range plugged {
+				if isPlugged(i) && expected(i) >= 0 && settle("the previous operation") {
+					checkPress(i, false)
+					held, shutdownHeld = i, !failed()
+					ro.Faults["shutdown_with_key_held"]++
+					break
+				}
+			}
+		}
+		if !failed() && !shutdownHeld {
 			mu.Lock()
 			for i := range plugged {
 				plugged[i] = false
@@ -797,6 +823,19 @@ func runW7(t *testing.T, job *worlds.Job, seed uint64, rp *worlds.Replay) worlds
 					mk([]string{"C16", "C15"}, "device_table_not_empty", fmt.Sprintf("every device is unplugged and its processing has ended, the manager's device table still holds %d entries (removal did not complete)", n))
 				}
 			}
+		}
+		// MIDI input stops before the shutdown (the relay stops reading it when the context ends)
+		mu.Lock()
+		floodStop = true
+		mu.Unlock()
+		for k := 0; k < 500; k++ {
+			mu.Lock()
+			fd := floodDone
+			mu.Unlock()
+			if fd {
+				break
+			}
+			simrt.Sleep(10 * time.Millisecond)
 		}
 		cancel()
 		deadline := simrt.Now() + 10*time.Second
@@ -818,25 +857,22 @@ func runW7(t *testing.T, job *worlds.Job, seed uint64, rp *worlds.Replay) worlds
 			simrt.Stop()
 			return
 		}
-		// the fan-out's reader lives as long as the application's MIDI input (main never closes it): end that too
-		mu.Lock()
-		floodStop = true
-		mu.Unlock()
-		for k := 0; k < 200; k++ {
-			mu.Lock()
-			fd := floodDone
-			mu.Unlock()
-			if fd {
-				break
-			}
-			simrt.Sleep(10 * time.Millisecond)
+		// as main() does once Run has returned: the output channel is closed
+		simrt.Close(midiOut)
+		if shutdownHeld {
+			// the held key's device ended with the context: its clean-up Note Off must have reached the port
+			silent("shutting the application down with KEY_A held (the context was cancelled, Manager.Run has returned, the output channel is closed)")
 		}
+		// the fan-out's reader lives as long as the application's MIDI input (main never closes it): end that too
 		simrt.Close(midiIn)
+		simrt.Close(pi.c)
 		simrt.WaitIdle()
 		if alive := simrt.AliveUnder(tid); len(alive) > 0 && !failed() {
 			mk([]string{"C16", "C19"}, "background_activity_left", fmt.Sprintf("after Manager.Run returned these goroutines it started are still alive: %v", alive))
 		}
-		simrt.Close(midiOut)
+		simrt.Sleep(50 * time.Millisecond)
+		simrt.WaitIdle()
+		simrt.Close(po.c)
 	})
 	ro.Steps, ro.SimTime, ro.Hash, ro.Choices = res.Steps, res.SimTime, res.SchedHash, res.Choices
 	ro.Nontriv = true
@@ -879,6 +915,21 @@ func runW7(t *testing.T, job *worlds.Job, seed uint64, rp *worlds.Replay) worlds
 	}
 	return ro
 }
+
+// the MIDI port of this world
+type w7Out struct{ c chan []byte }
+
+func (o *w7Out) Name() string               { return "sim out" }
+func (o *w7Out) Open() error                { return nil }
+func (o *w7Out) Close() error               { return nil }
+func (o *w7Out) SendChannel() chan<- []byte { return o.c }
+
+type w7In struct{ c chan []byte }
+
+func (i *w7In) Name() string                  { return "sim in" }
+func (i *w7In) Open() error                   { return nil }
+func (i *w7In) Close() error                  { return nil }
+func (i *w7In) ReceiveChannel() <-chan []byte { return i.c }
 
 func flatMsgs(ms [][]byte) string {
 	var s []string
